@@ -42,6 +42,7 @@ for _n in ("2", "3", "4"):
 # (`*_pinned`: the headline statements written out a second time, so that a weakened theorem no longer proves its pinned copy) and
 # joint instantiations over the reals (`*_real_instance`)
 THEOREM_FUNCS.update({
+    "Line3_mulM44_def": ["Line3.mulM44"], "Line3_mulM44": ["Line3.mulM44"],
     "closestPointToLine_cases": ["Line3.closestPointToLine"], "cpl_guard_den_ne_zero": ["Line3.closestPointToLine"],
     "Line3_closestPointToLine_no_div_by_zero": ["Line3.closestPointToLine"],
     "Plane3_mulM44_projective": ["Plane3.mulM44"], "Plane3_mulM44_projective_contains": ["Plane3.mulM44"],
@@ -276,18 +277,23 @@ def rat_grid_search(chk, index, which, binary=None, idx_deps=()):
     if which == "triangle" and "LineAlgo.intersect" in meta:
         ex = _extra_args(meta["LineAlgo.intersect"])
         v0, v1, v2 = (0, 0, 0), (3, 0, 0), (0, 4, 0)          # edge lengths 3, 5, 4; normal (v2-v1)x(v1-v0) = (0,0,-12)
-        for up in (1, -1):
+        # |up| = 1: ordinary hits; |up| >= tmax = 2^20 (the Rat stand-in of numeric_limits::max): the line meets the plane at a parameter
+        # >= tmax, the documented overflow guard |d| < max*|nd| must answer false even for points inside the triangle
+        for up in (1, -1, 1048576, -2097152):
             for i in range(-2, 9):
                 for j in range(-2, 10):
                     x, y = Fr(i, 2), Fr(j, 2)
                     b1, b2 = x / 3, y / 4
                     b0 = 1 - b1 - b2
-                    hit = b0 >= 0 and b1 >= 0 and b2 >= 0
-                    front = (up == -1)                          # dir = (0,0,-up); dir . N = 12*up < 0 iff up = -1
-                    cases.append({"fn": "LineAlgo.intersect", "input": {"line.pos": [str(x), str(y), str(up)], "line.dir": [0, 0, -up], "v0": v0, "v1": v1, "v2": v2},
+                    hit = b0 >= 0 and b1 >= 0 and b2 >= 0 and abs(up) < 1048576
+                    front = (up < 0)                            # dir = (0,0,-sign up); dir . N = 12*sign(up) < 0 iff up < 0
+                    sg = 1 if up > 0 else -1
+                    inside = b0 >= 0 and b1 >= 0 and b2 >= 0
+                    cases.append({"fn": "LineAlgo.intersect", "input": {"line.pos": [str(x), str(y), str(up)], "line.dir": [0, 0, -sg], "v0": v0, "v1": v1, "v2": v2},
                                   "expect": ("1 %s %s 0/1 %s %s %s %d" % (_f(x), _f(y), _f(b0), _f(b1), _f(b2), 1 if front else 0)) if hit else "0",
-                                  "class": "on-edge-or-vertex" if hit and 0 in (b0, b1, b2) else ("inside" if hit else "outside")})
-                    call = "(LineAlgo.intersect %s ⟨⟨%s, %s, %s⟩, ⟨0, 0, %s⟩⟩ ⟨0, 0, 0⟩ ⟨3, 0, 0⟩ ⟨0, 4, 0⟩)" % (ex, _q(x), _q(y), _q(up), _q(-up))
+                                  "class": ("overflow-guard-parameter>=tmax" if abs(up) > 1 and inside else
+                                            "on-edge-or-vertex" if hit and 0 in (b0, b1, b2) else ("inside" if hit else "outside"))})
+                    call = "(LineAlgo.intersect %s ⟨⟨%s, %s, %s⟩, ⟨0, 0, %s⟩⟩ ⟨0, 0, 0⟩ ⟨3, 0, 0⟩ ⟨0, 4, 0⟩)" % (ex, _q(x), _q(y), _q(up), _q(-sg))
                     lines.append('#eval IO.println (let r := %s; "RATGRID %d " ++ (if r.1 then "1 " ++ fv r.2.1 ++ " " ++ fv r.2.2.1 ++ (if r.2.2.2 then " 1" else " 0") else "0"))' % (call, len(cases) - 1))
     if which == "sphere" and "Sphere3.intersectT" in meta:
         ex = _extra_args(meta["Sphere3.intersectT"])
@@ -348,7 +354,7 @@ def _f(x):
 # recomputes that number from the current tree.  rotatePoint: `radius = 0` with `|x × dir| ≠ 0` is unreachable (x is then 0).
 TVIN_EXPECT = {"Line3.set": 2, "Line3.closestPointToLine": 10, "Line3.distanceToLine": 3, "LineAlgo.closestPoints": 4, "LineAlgo.intersect": 16,
                "LineAlgo.rotatePoint": 3, "Plane3.setPoints": 2, "Plane3.intersectT": 2, "Plane3.intersect": 2, "Sphere3.intersectT": 4,
-               "Sphere3.intersect": 4, "LineAlgo.closestVertex": 4}
+               "Sphere3.intersect": 4, "LineAlgo.closestVertex": 4, "Line3.mulM44": 2}
 
 
 def _tvin_inputs(rng, n):
@@ -381,6 +387,10 @@ def _tvin_inputs(rng, n):
         add("LineAlgo.closestVertex", iv() + iv() + iv() + p1 + unit(e1))
         # ---- Line3.set / Plane3.setPoints / plane-line / rotatePoint / spheres
         add("Line3.set", p1 + (p1 if k % 3 == 0 else p2))
+        mm = [rng.randint(-2, 2) for _ in range(16)]
+        if k % 2: mm[3], mm[7], mm[11], mm[15] = 0, 0, 0, 1
+        if k % 5 == 0: mm = [0] * 12 + mm[12:15] + [1]                                           # zero linear part: both images coincide
+        add("Line3.mulM44", p1 + (unit(e1) if k % 3 else e1) + mm)
         q1, q2, q3 = iv(), iv(), iv()
         if k % 3 == 0: q3 = [q1[c] + 3 * (q2[c] - q1[c]) for c in range(3)]
         add("Plane3.setPoints", q1 + q2 + q3)
